@@ -437,6 +437,10 @@ pub trait Scheme: 'static + Sized {
     ) -> Option<(bool, String)> {
         None
     }
+    /// the commitment `c` carrying the *plain* part of `o` as a (surplus) degree-bound part
+    fn comm_with_surplus_shift(_c: &Comm<Self>, _o: &Comm<Self>) -> Option<Comm<Self>> {
+        None
+    }
     /// the commitment `c` with the group identity as its degree-bound part
     fn comm_with_identity_shift(_c: &Comm<Self>) -> Option<Comm<Self>> {
         None
@@ -788,6 +792,9 @@ where
     }
     fn comm_with_identity_shift(c: &Comm<Self>) -> Option<Comm<Self>> {
         Some(ark_poly_commit::ipa_pc::Commitment { comm: c.comm, shifted_comm: Some(<G as ark_ec::AffineRepr>::zero()) })
+    }
+    fn comm_with_surplus_shift(c: &Comm<Self>, o: &Comm<Self>) -> Option<Comm<Self>> {
+        Some(ark_poly_commit::ipa_pc::Commitment { comm: c.comm, shifted_comm: Some(o.comm) })
     }
 }
 pub struct Pst13S<E>(PhantomData<E>);
